@@ -37,7 +37,14 @@ void h_sm2_point_add(void)
 	sm2_z256_point_add(r, a, b);
 	NATIVE({ SM2_Z256_POINT chk; int ainf = sm2_z256_is_zero(G.aZ) == 1, binf = sm2_z256_is_zero(G.bZ) == 1;
 		if (binf) { LOADPT(&chk, G.aX, G.aY, G.aZ); CHECK(memcmp(r, &chk, sizeof chk) == 0, "P + O == P"); }
-		else if (ainf) { LOADPT(&chk, G.bX, G.bY, G.bZ); CHECK(memcmp(r, &chk, sizeof chk) == 0, "O + Q == Q"); } })
+		else if (ainf) { LOADPT(&chk, G.bX, G.bY, G.bZ); CHECK(memcmp(r, &chk, sizeof chk) == 0, "O + Q == Q"); }
+		/* the counterexample is over an uninterpreted product; re-evaluate the identity law on the encodings of infinity the
+		   library itself produces, (0:0:0) and (1:1:0), with the generator as the finite operand */
+		{ SM2_Z256_POINT Gp, O, R2; sm2_z256_t one_; sm2_z256_set_one(one_); sm2_z256_point_mul_generator(&Gp, one_); memset(&O, 0, sizeof O);
+		  sm2_z256_point_add(&R2, &Gp, &O); CHECK(memcmp(&R2, &Gp, sizeof Gp) == 0, "G + (0:0:0) == G");
+		  sm2_z256_point_add(&R2, &O, &Gp); CHECK(memcmp(&R2, &Gp, sizeof Gp) == 0, "(0:0:0) + G == G");
+		  sm2_z256_point_set_infinity(&O);
+		  sm2_z256_point_add(&R2, &Gp, &O); CHECK(memcmp(&R2, &Gp, sizeof Gp) == 0, "G + (1:1:0) == G"); } })
 	CANARY("returned");
 }
 
